@@ -216,6 +216,44 @@ def check_forms(ctx, text, opts):
         rec.sample({'text': text[:200], 'options': opts})
 
 
+def check_same_size(ctx, text, opts):
+    """Several different texts of the same encoded length are passed as
+    bytes one directly after the other, each buffer released before the
+    next one is made (a loop over equally sized files): every result must
+    be the one of that text's str form."""
+    rec = ctx.rec
+    idx = [i for i, c in enumerate(text) if c.isascii() and c.isalnum()]
+    if not idx:
+        return
+    variants = [text]
+    for k in range(3):
+        i = idx[(k * 7919) % len(idx)]
+        c = text[i]
+        r = {'9': '1', 'z': 'y', 'Z': 'Y'}.get(c, chr(ord(c) + 1))
+        variants.append(text[:i] + r + text[i + 1:])
+    for api in ('split', 'format', 'parse'):
+        refs = [observe(api, v, opts) for v in variants]
+        for enc in ('utf-8', None):
+            gots = []
+            for v in variants:
+                data = v.encode('utf-8')
+                gots.append(observe(api, data, opts, enc))
+                del data
+            rec.monitor('input_forms')
+            for v, g, r in zip(variants, gots, refs):
+                if g != r:
+                    rec.violation('form-bytes-sequence',
+                                  {'text': v, 'api': api, 'options': opts,
+                                   'variants': variants},
+                                  '%s(bytes) in a sequence of equally long '
+                                  'inputs differs from %s(str): %s vs %s' % (
+                                      api, api, str(g)[:100], str(r)[:100]),
+                                  key=('seq', api))
+                    break
+    rec.count('same_size_sequences')
+    rec.nontrivial(('same-size', len(text) % 64))
+
+
 # ---- CLI --------------------------------------------------------------------
 def cli_args(rng):
     """(argv flags, expected format() options)."""
@@ -264,6 +302,21 @@ def cli_args(rng):
     if rng.random() < 0.15:
         argv += ['--compact', 'yes']
         o['compact'] = True
+    if rng.random() < 0.12:
+        # option bundles whose members only act together: the command line
+        # validates the options before format() validates them again
+        if 'reindent' not in o:
+            argv += ['-r']
+            o['reindent'] = True
+        if 'comma_first' not in o:
+            argv += ['--comma_first', 'True']
+            o['comma_first'] = True
+        if 'wrap_after' in o:
+            i = argv.index('--wrap_after')
+            del argv[i:i + 2]
+        v = rng.randint(2, 60)
+        argv += ['--wrap_after', str(v)]
+        o['wrap_after'] = v
     return argv, o
 
 
@@ -456,6 +509,8 @@ def shard(ctx):
                 check_big_stream(ctx)
             elif k % 20 == 12:
                 check_straddle(ctx)
+            elif k % 20 == 7:
+                check_same_size(ctx, text, options.any_valid_options(rng))
             elif k % 45 == 0:
                 check_cli(ctx, big_text(rng, src), tmpdir,
                           subprocess_too=(k % 90 == 0))
@@ -473,6 +528,8 @@ def replay(ctx, kind, case):
     if 'argv' in case:
         ctx.rec.note('re-run with the same VERIF_SEED; argv was %r'
                      % (case['argv'],))
+    elif 'variants' in case:
+        check_same_size(ctx, case['variants'][0], case.get('options', {}))
     else:
         check_forms(ctx, case['text'], case.get('options', {}))
 
